@@ -132,6 +132,8 @@ type realisation struct {
 	readOthers  bool
 	// suicide: balance writes to zero (in all three blocks) are made with Suiside
 	suicide bool
+	// noiseAfter: after the real writes a later transaction overwrites the same keys and scalars and is reverted
+	noiseAfter bool
 }
 
 func rootFor(base, w *netWrites, r *realisation) (string, error) {
@@ -229,6 +231,25 @@ func rootFor(base, w *netWrites, r *realisation) (string, error) {
 			l.Finalise(true)
 		}
 	}
+	if r.noiseAfter {
+		// a failed transaction at the end of the block: it wrote to everything the block wrote (also to keys the block
+		// deleted) and was reverted
+		l.Finalise(true)
+		id := l.Snapshot()
+		for _, o := range ops {
+			switch o.kind {
+			case "set", "delete":
+				l.SetState(c13Addrs[o.a], []byte(o.key), []byte("late-noise"), nil)
+			case "balance":
+				l.SetBalance(c13Addrs[o.a], big.NewInt(515151))
+			case "nonce":
+				l.SetNonce(c13Addrs[o.a], 5151)
+			case "code":
+				l.SetCode(c13Addrs[o.a], []byte{0xde, 0xad})
+			}
+		}
+		l.RevertToSnapshot(id)
+	}
 	if r.readOthers {
 		readOthers()
 	}
@@ -295,6 +316,7 @@ func drawRealisation(t *rapid.T, n int, label string) *realisation {
 	r.reopenEarly = rapid.Bool().Draw(t, label+"-reopenEarly")
 	r.readOthers = rapid.Bool().Draw(t, label+"-readOthers")
 	r.suicide = rapid.Bool().Draw(t, label+"-suicide")
+	r.noiseAfter = rapid.Bool().Draw(t, label+"-noiseAfter")
 	if n > 1 {
 		r.txSplit = rapid.IntRange(0, n-1).Draw(t, label+"-split")
 	}
